@@ -133,6 +133,7 @@ class Program(object):
             self.modules[modname] = m
         from . import normal
         self.delegations_undone = normal.undo_delegations(dict((k, m.tree) for k, m in self.modules.items()))
+        self.helpers_inlined = normal.inline_single_use_helpers(dict((k, m.tree) for k, m in self.modules.items()))
         for m in self.modules.values():
             m.finish()
         self.dead_bookkeeping = normal.drop_dead_bookkeeping(dict((k, m.tree) for k, m in self.modules.items()))
